@@ -308,6 +308,9 @@ Definition reviewed_writes : list (string * string * wclass) :=
     ("map[string]string", "[*]", WStream); ("[]float64", "[*]", WStream); ("uint64", "[*]", WStream);
     (* the parsed script *)
     ("logql/logql_parser.LRAOrUnwrap", "StrSel", WScriptCut); ("logql/logql_parser.StrSelector", "Pipelines", WScriptCut);
+    (* groupByNothing (logql_transpiler_v2.Plan): a vector aggregation without clause is given `by ()` in the parsed script, in
+       place, before either engine plans it; idempotent (a second Plan of the same script finds the clause) - added by b4-c08 *)
+    ("logql/logql_parser.AggOperator", "ByOrWithoutSuffix", WScriptCut);
     (* not translation *)
     ("model.SeriesSet", "idx", WNotTranslation); ("service.RewriteTableV2", "*", WNotTranslation);
     ("service.labelsGetter", "*", WNotTranslation); ("utils/dsn.StableSqlxDBWrapper", "*", WNotTranslation) ].
